@@ -16,6 +16,38 @@ from scipy.interpolate import interp1d as sc_interp1d
 __all__ = ["find_nearest", "iter_current_next", "partition", "iter_subclasses"]
 
 
+def deepcopy_linked(obj, chain_length=0):
+    """
+    `copy.deepcopy` for objects that are linked in long chains (the time
+    points of a part link to their neighbours, so the copy recurses once
+    around the whole timeline). The recursion limit is raised in proportion
+    to the length of the chain for the duration of the copy and restored
+    afterwards, also when the copy fails.
+
+    Parameters
+    ----------
+    obj : object
+        The object to copy
+    chain_length : int
+        Number of chained elements (time points) reachable from `obj`
+
+    Returns
+    -------
+    object
+        The deep copy
+    """
+    import copy
+    import sys
+
+    old_recursion_depth = sys.getrecursionlimit()
+    sys.setrecursionlimit(max(old_recursion_depth, 10000, 50 * chain_length + 1000))
+    try:
+        return copy.deepcopy(obj)
+    finally:
+        # Reset recursion limit to previous value to avoid side effects
+        sys.setrecursionlimit(old_recursion_depth)
+
+
 class _OrderedSet(dict):
     def add(self, x):
         self[x] = None
